@@ -959,7 +959,13 @@ class VarsManager(object):
     @contextlib.contextmanager
     def mask_params(self, params):
         old_mask = self.mask_vars
-        self.mask_vars = params
+        new_mask = dict(old_mask)
+        for k, v in params.items():
+            new_mask[k] = v
+            for i in self.variables:  # tied names share one tf.Variable
+                if self.variables[i] is self.variables.get(k, None):
+                    new_mask[i] = v
+        self.mask_vars = new_mask
         try:
             yield
         finally:
